@@ -25,6 +25,10 @@ parameters vs the explicit loop, and the same event list of the Lean model (ops 
 optimiser instances that own more than the current loss reaches (check_shared_optimizer): one stateful instance (SGD momentum / Nesterov / weight decay, Adam, AdamW,
 RMSprop) shared by two hedgers fitted one after the other, used for consecutive fits, owning an unrelated parameter trained before or frozen layers; all owned
 parameters vs the explicit loop with a twin optimiser after every fit, parameters outside the loss unchanged (keys fit:shared-optimizer:*); event lists to op "fit".
+user-defined derivatives with several underliers (check_multi_underlier): best-of / basket / spread pay-offs on 2-3 underliers of the same and of different primary
+classes (incl. a user-defined primary with an overridden default state, Heston pairs with a two-component state), fitted with non-default init_state and batch sizes;
+explicit loop that simulates EVERY underlier itself from the requested state; at every criterion evaluation of fit every underlier holds a batch of the requested size
+starting from the requested state (keys fit:multi-underlier:*); event lists to op "fit".
 """
 import copy
 import math
@@ -518,6 +522,7 @@ def check(ctx):
         events = events_ref
     check_prev_hedge(ctx, torch, g)
     check_shared_optimizer(ctx, torch, reqs, metas)
+    check_multi_underlier(ctx, torch, reqs, metas)
     check_fit_num(ctx, torch)
     try:
         outs = ctx.driver(reqs)
@@ -568,6 +573,13 @@ def check(ctx):
              "or one model (fits 0, 00), optionally an unrelated parameter (same / own parameter group) on which the caller took 0..2 steps before, frozen first layers, "
              "the two derivatives on one underlier; float64 / float32; after every fit all owned parameters bitwise = explicit loop with a twin optimiser, parameters "
              "outside the loss unchanged where the explicit loop leaves them unchanged; every fit's event list to the Lean op fit; "
+             "user-defined derivatives (BaseDerivative, with / without OptionMixin) with 2-3 registered underliers (deterministic corpus of 8 mixes on every tier + random ones): "
+             "BrownianStock (different volatilities / cost rates), MertonJumpStock, KouJumpStock, a BrownianStock subclass with default state (3.0,), HestonStock pairs / triples; "
+             "best-of / basket / spread pay-off; init_state None or one of {(1.25,), (0.8,), (2.0,), (1+2^-10,)} resp. {(1.25, 0.09), (0.9, 0.0225), (1.0, 0.16)} as floats or 0-dim "
+             "tensors; n_paths in {1,3,8}, 2/3/5 hedging dates, k in {1,2,3}, n_times in {1,2}, hedge default / full list / all but the last underlier, with and without prev_hedge, "
+             "float64 / float32, SGD / Adam as class and instance, all call forms and display options: at every criterion evaluation every underlier's buffers have n_paths rows and "
+             "the first column the underlier itself produces from that state (bitwise); history, parameters and step gradients bitwise = the explicit loop in which every "
+             "underlier is simulated by hand from the requested state; every fit's event list to the Lean op fit; "
              "non-trivial = k>=1; distinct = sha1 of canonical case")
 
 
@@ -779,6 +791,295 @@ def check_shared_optimizer(ctx, torch, reqs, metas):
                          "same optimiser (class, options, earlier steps) under the same seed", fcase, key="fit:shared-optimizer:reference-loop" + sfx,
                          detail={"differ": differ, "max_abs_diff": max(float((a_ - a2_).abs().max()) for a_, a2_ in zip(after, after2))})
                 break
+
+
+# ---------------------------------------------------------------------------------------------------------------------------
+# USER-DEFINED derivatives with SEVERAL underliers (registered through the inherited register_underlier; all of them are simulated by the
+# inherited BaseDerivative.simulate and, by default, all of them are hedging instruments): best-of / basket / spread pay-offs on 2 or 3
+# underliers of one primary class or of different ones (BrownianStock with different volatilities and cost rates, MertonJumpStock,
+# KouJumpStock, a user-defined primary whose default initial state is overridden; HestonStock pairs / triples with a two-component state),
+# fitted with a non-default init_state (floats, 0-dim tensors; also the default None) and batch sizes 1 .. 8.  The explicit loop does not
+# go through the derivative's simulate: it simulates EVERY underlier itself, in registration order, with
+# underlier.simulate(n_paths, time_horizon=maturity, init_state=s), then loss / backward / step as always.  Predicates (bitwise):
+# at EVERY criterion evaluation of fit (the k training batches and the k * n_times validation batches) every underlier holds a batch of
+# the requested size whose first column (of every buffer: spot, variance) is what that underlier produces when asked directly to simulate
+# from the requested state (fit:multi-underlier:initial-state / :batch-size); history = means of the explicit loop's evaluations;
+# parameters after fit = explicit loop's; gradient at every step of an optimiser instance = explicit loop's.  Event lists to the op "fit".
+
+MULTI_KINDS = {"brownian": 1, "brownian-cost": 1, "merton": 1, "kou": 1, "shifted-default": 1, "heston": 2, "heston-fast": 2}
+MULTI_CORPUS = [(["brownian", "brownian"], "best_of"), (["brownian", "merton"], "basket"), (["brownian-cost", "kou", "merton"], "best_of"),
+                (["heston", "heston-fast"], "spread"), (["shifted-default", "brownian"], "basket"), (["brownian", "brownian", "brownian-cost"], "spread"),
+                (["brownian", "shifted-default"], "best_of"), (["heston", "heston", "heston-fast"], "basket")]
+MULTI_STATES = {1: [[1.25], [0.8], [2.0], [1.0009765625]], 2: [[1.25, 0.09], [0.9, 0.0225], [1.0, 0.16]]}
+
+
+def check_multi_underlier(ctx, torch, reqs, metas):
+    import pfhedge.nn as nn
+    import pfhedge.instruments as I
+    from pfhedge.nn import Hedger
+    g = Gen(f"{ctx.seed}:multi_underlier")
+    orig_backward = torch.Tensor.backward
+
+    class ShiftedStock(I.BrownianStock):          # a user-defined primary: the inherited simulate, another default initial state
+        @property
+        def default_init_state(self):
+            return (3.0,)
+
+    def make_underlier(kind, j, dtc):
+        if kind == "brownian":
+            return I.BrownianStock(sigma=0.2 + 0.1 * j, dtype=dtc)
+        if kind == "brownian-cost":
+            return I.BrownianStock(sigma=0.25, cost=2.0 ** -9, dtype=dtc)
+        if kind == "merton":
+            return I.MertonJumpStock(sigma=0.2, cost=2.0 ** -10, dtype=dtc)
+        if kind == "kou":
+            return I.KouJumpStock(sigma=0.15, dtype=dtc)
+        if kind == "shifted-default":
+            return ShiftedStock(sigma=0.3, dtype=dtc)
+        if kind == "heston":
+            return I.HestonStock(rho=-0.7 + 0.2 * j, dtype=dtc)
+        if kind == "heston-fast":
+            return I.HestonStock(kappa=3.0, theta=0.09, cost=2.0 ** -10, dtype=dtc)
+        raise InternalError(kind)
+    corpus = [dict(kinds=kinds_, payoff=po_, optkind=ok_, validation=va_) for (kinds_, po_), (ok_, va_) in
+              zip(MULTI_CORPUS, itertools_cycle([("cls", True), ("instance", True), ("cls", False), ("instance", False)]))]
+    ctx.extra["multi_underlier_corpus_configurations"] = len(corpus)
+    for it in range(len(corpus) + (24 if ctx.tier == "quick" else 300)):
+        dim = g.weighted([(1, 3), (2, 1)])
+        H = g.choice([2, 2, 3])
+        pool = [nm_ for nm_, d_ in MULTI_KINDS.items() if d_ == dim]
+        kinds = [g.choice(pool) for _ in range(H)]
+        payoff_kind = g.choice(["best_of", "basket", "spread"])
+        k = g.choice([1, 2, 3])
+        n_paths = g.choice([1, 3, 8])
+        n_steps = g.choice([2, 3, 5])
+        n_times = g.choice([1, 1, 2])
+        validation = g.chance(0.6)
+        optkind = g.choice(["cls", "instance"])
+        optname = g.choice(["SGD", "Adam"])
+        with_init = g.chance(0.85)
+        state_i = g.randint(0, 10)
+        tensor_state = g.chance(0.25)             # the components of the state as 0-dim tensors (documented: tuple[torch.Tensor | float])
+        hedge_mode = g.weighted([("default", 3), ("list", 1), ("sublist", 1)])
+        prev = g.chance(0.3)                      # the previous hedge (of all instruments) among the inputs
+        # the user's class: BaseDerivative alone, or - as pfhedge's own options are written - BaseDerivative with OptionMixin (strike; moneyness and
+        # time to maturity of the first underlier are then available as inputs)
+        option_like = g.chance(0.6)
+        others = g.r.sample(["underlier_spot", "zeros"] + (["time_to_maturity", "moneyness", "log_moneyness"] if option_like else []), g.choice([1, 2]))
+        crit_name = g.choice(["erm", "es", "eloss"])
+        dtc = g.choice([torch.float64, torch.float64, torch.float32])
+        verbose = g.chance(0.3)
+        call_form = gen_call_form(g)
+        seed = g.randint(0, 10 ** 6)
+        if it < len(corpus):      # on every tier, for every seed
+            c_ = corpus[it]
+            kinds, payoff_kind, optkind, validation = list(c_["kinds"]), c_["payoff"], c_["optkind"], c_["validation"]
+            H, dim = len(kinds), MULTI_KINDS[kinds[0]]
+            with_init, k = True, max(k, 2)
+        state = MULTI_STATES[dim][state_i % len(MULTI_STATES[dim])] if with_init else None
+        n_hedge = H if hedge_mode != "sublist" else H - 1
+        names = others + (["prev_hedge"] if prev else [])
+        width = len(others) + (n_hedge if prev else 0)
+        strike = 1.0 if state is None else state[0]
+        case = {"multi_underlier": True, "underliers": kinds, "payoff": payoff_kind, "option_mixin": option_like, "strike": strike, "epochs": k, "n_paths": n_paths, "n_steps": n_steps,
+                "n_times": n_times, "validation": validation, "opt": optkind, "optimizer": optname, "with_init": with_init, "init_state": state,
+                "init_state_as_tensors": tensor_state if with_init else None, "hedge": hedge_mode, "inputs": names, "criterion": crit_name,
+                "dtype": str(dtc).replace("torch.", ""), "verbose": verbose, "call_form": call_form, "seed": seed}
+        ctx.case(case, nontrivial=with_init, tag="fit_multi_underlier")
+        ctx.traces += 1
+        ctx.stats[f"multi_underlier:H={H}/state_dim={dim}/with_init={with_init}"] += 1
+        ctx.stats[f"multi_underlier:{'same class' if len(set(kinds)) == 1 else 'different classes'}"] += 1
+        sfx = ("" if call_form == "keyword" else ":positional") + (":verbose" if verbose else "")
+        events, seen = [], []
+        base_opt = getattr(torch.optim, optname)
+        lr = 0.05 if optname == "SGD" else 0.01
+
+        def the_state():
+            if state is None:
+                return None
+            return tuple(torch.tensor(x, dtype=dtc) for x in state) if tensor_state else tuple(state)
+
+        class UserDerivative(*((I.BaseDerivative, I.OptionMixin) if option_like else (I.BaseDerivative,))):
+            ref = None
+
+            def __init__(self, unds):
+                super().__init__()
+                for j_, u_ in enumerate(unds):
+                    # (OptionMixin's moneyness reads the attribute `underlier`: an option-like user class calls its first underlier so)
+                    self.register_underlier("underlier" if (option_like and j_ == 0) else f"asset{j_}", u_)
+                self.maturity = n_steps / 250
+                self.strike = strike
+
+            def simulate(self, n_paths=1, init_state=None):
+                events.append(["simulate", int(n_paths), init_state is not None, bool(self.ref[0].training), bool(torch.is_grad_enabled())])
+                super().simulate(n_paths=n_paths, init_state=init_state)
+
+            def payoff_fn(self):
+                last = torch.stack([u_.spot[..., -1] for u_ in self.underliers()], dim=0)      # (H, N)
+                if payoff_kind == "best_of":
+                    return torch.nn.functional.relu(last.max(dim=0).values - strike)
+                if payoff_kind == "basket":
+                    return torch.nn.functional.relu(last.mean(dim=0) - strike)
+                return torch.nn.functional.relu(last[0] - last[-1])
+
+        class LogCrit(torch.nn.Module):
+            def __init__(self, inner, ref, unds):
+                super().__init__()
+                self.inner, self.ref, self.unds = inner, ref, unds
+
+            def forward(self, input, target=0.0):
+                events.append(["loss", bool(self.ref[0].training), bool(torch.is_grad_enabled())])
+                # what every underlier holds when the criterion is evaluated on a batch: size and first column of every buffer
+                seen.append([{bn_: (tuple(b_.shape), b_[:, 0].detach().clone()) for bn_, b_ in u_.named_buffers()} for u_ in self.unds])
+                return self.inner(input, target)
+
+        class LogOpt(base_opt):
+            def __init__(self, params):
+                events.append(["mk_optimizer"])
+                super().__init__(params, lr=lr)
+                self.grads_at_step = []
+
+            def zero_grad(self, *a, **kw):
+                events.append(["zero_grad"])
+                return super().zero_grad(*a, **kw)
+
+            def step(self, *a, **kw):
+                events.append(["step"])
+                self.grads_at_step.append([None if p.grad is None else p.grad.detach().clone() for gr in self.param_groups for p in gr["params"]])
+                return super().step(*a, **kw)
+
+        def world():
+            torch.manual_seed(seed)
+            model = torch.nn.Sequential(torch.nn.Linear(width, 4, dtype=dtc), torch.nn.Tanh(), torch.nn.Linear(4, n_hedge, dtype=dtc))
+            unds = [make_underlier(kd_, j_, dtc) for j_, kd_ in enumerate(kinds)]
+            crit = {"erm": lambda: nn.EntropicRiskMeasure(), "es": lambda: nn.ExpectedShortfall(0.5), "eloss": lambda: nn.EntropicLoss()}[crit_name]()
+            ref = [None]
+            hedger = Hedger(model, list(names), criterion=LogCrit(crit, ref, unds))
+            ref[0] = hedger
+            d = UserDerivative(unds)
+            d.ref = ref
+            orig_train = hedger.train
+
+            def train(mode=True):
+                events.append(["train"] if mode else ["eval"])
+                return orig_train(mode)
+            hedger.train = train
+            hedge = {"default": None, "list": list(unds), "sublist": list(unds[:-1])}[hedge_mode]
+            return hedger, d, unds, hedge
+        hedger, d, unds, hedge = world()
+        # the first column every underlier produces when asked DIRECTLY to simulate a batch of this size from the requested state (deterministic; bitwise oracle)
+        want_first = []
+        for u_ in unds:
+            probe = copy.deepcopy(u_)
+            if state is None:
+                probe.simulate(n_paths=n_paths, time_horizon=n_steps / 250)
+            else:
+                probe.simulate(n_paths=n_paths, time_horizon=n_steps / 250, init_state=the_state())
+            want_first.append({bn_: b_[:, 0].detach().clone() for bn_, b_ in probe.named_buffers()})
+        opt = LogOpt if optkind == "cls" else LogOpt(hedger.model.parameters())
+        events.clear()
+
+        def patched_backward(self, *a, **kw):
+            events.append(["backward"])
+            return orig_backward(self, *a, **kw)
+        torch.Tensor.backward = patched_backward
+        try:
+            torch.manual_seed(seed + 1)
+            st, hist, _ = call_fit(hedger.fit, d, call_form, hedge=hedge, n_epochs=k, n_paths=n_paths, n_times=n_times, optimizer=opt,
+                                   init_state=the_state(), validation=validation, **display_opts(verbose))
+        finally:
+            torch.Tensor.backward = orig_backward
+        evs, fit_seen = list(events), list(seen)
+        if st != "ok":
+            ctx.fail("fit raised for a user-defined derivative with several underliers", case, key="fit:multi-underlier:error" + sfx, detail=hist)
+            continue
+        reqs.append({"op": "fit", "epochs": k, "n_paths": n_paths, "n_times": n_times, "with_init": with_init, "opt": optkind, "lazy": False,
+                     "validation": validation, "start_training": True})
+        metas.append((case, st, hist, evs))
+        nsteps = sum(1 for e in evs if e[0] == "step")
+        if nsteps != k:
+            ctx.fail("fit did not perform exactly one optimiser step per epoch", case, key="fit:multi-underlier:steps" + sfx, detail={"steps": nsteps})
+        if (hist is None) != (not validation) or (validation and len(hist) != k):
+            ctx.fail("fit did not return one validation loss per epoch (None when validation is off)", case, key="fit:multi-underlier:history" + sfx, detail=str(hist)[:100])
+            continue
+        # (a) the batches the criterion was evaluated on: k training and k * n_times validation batches; in each of them EVERY underlier
+        # holds n_paths paths that start from the requested state
+        n_evals = k * (1 + (n_times if validation else 0))
+        if len(fit_seen) != n_evals:
+            ctx.fail(f"fit evaluated the criterion {len(fit_seen)} times, the protocol has {n_evals} batches (k training, k * n_times validation)", case,
+                     key="fit:multi-underlier:batches" + sfx)
+        bad = None
+        for bi, snap in enumerate(fit_seen):
+            for j_, (bufs, want_) in enumerate(zip(snap, want_first)):
+                for bn_, (shape_, first_) in bufs.items():
+                    if shape_ != (n_paths, n_steps + 1):
+                        bad = bad or ("batch-size", bi, j_, bn_, list(shape_), [n_paths, n_steps + 1])
+                    elif not torch.equal(first_, want_[bn_]):
+                        bad = bad or ("initial-state", bi, j_, bn_, [float(x) for x in first_[:4]], [float(x) for x in want_[bn_][:4]])
+        if bad is not None:
+            what = ("a batch fit processed does not have the requested size in every underlier" if bad[0] == "batch-size" else
+                    "a batch fit processed was not simulated from the requested initial state: an underlier of the derivative does not start from it "
+                    "(first column of its buffer differs from what the underlier produces when simulated from that state)")
+            ctx.fail(what, case | {"criterion_evaluation": bad[1], "underlier_index": bad[2], "underlier": kinds[bad[2]], "buffer": bad[3]},
+                     key=f"fit:multi-underlier:{bad[0]}" + sfx, detail={"seen": bad[4], "expected": bad[5]})
+        # (b) the explicit loop, same seed: every underlier simulated by hand from the requested state, in registration order
+        events_fit = events
+        events = []
+        hedger2, d2, unds2, hedge2 = world()
+        crit2 = hedger2.criterion
+        plist2 = list(hedger2.model.parameters())
+        ref_opt = base_opt(plist2, lr=lr)
+
+        def simulate_all():
+            for u_ in unds2:
+                if state is None:
+                    u_.simulate(n_paths=n_paths, time_horizon=n_steps / 250)
+                else:
+                    u_.simulate(n_paths=n_paths, time_horizon=n_steps / 250, init_state=the_state())
+        ref_grads, ref_vals = [], []
+        torch.manual_seed(seed + 1)
+        for ep in range(k):
+            hedger2.train()
+            ref_opt.zero_grad()
+            simulate_all()
+            loss = crit2(hedger2.compute_portfolio(d2, hedge=hedge2), d2.payoff())
+            loss.backward()
+            ref_grads.append([None if p.grad is None else p.grad.detach().clone() for p in plist2])
+            ref_opt.step()
+            if validation:
+                hedger2.eval()
+                with torch.no_grad():
+                    vals = []
+                    for _ in range(n_times):
+                        simulate_all()
+                        vals.append(float(crit2(hedger2.compute_portfolio(d2, hedge=hedge2), d2.payoff())))
+                    ref_vals.append(vals)
+        events = events_fit
+        if validation:
+            fi = torch.finfo(dtc)
+            for ep, (h, vals) in enumerate(zip(hist, ref_vals)):
+                if not history_entry_ok(h, vals, fi.eps, fi.max):
+                    ctx.fail("a validation loss returned by fit is not the mean of the n_times evaluations of the explicit loop under the same seed, in which "
+                             "every underlier of the derivative is simulated from the requested initial state", case | {"epoch": ep},
+                             key="fit:multi-underlier:history-values" + sfx, detail={"returned": h, "explicit_loop_evaluations": vals})
+                    break
+        p1 = [p.detach() for p in hedger.parameters()]
+        p2 = [p.detach() for p in hedger2.parameters()]
+        if len(p1) != len(p2) or any(not torch.equal(a, b) for a, b in zip(p1, p2)):
+            ctx.fail("parameters after fit differ from the explicit simulate/loss/backward/step loop under the same seed, in which every underlier of the "
+                     "user-defined derivative is simulated with the requested batch size and initial state", case, key="fit:multi-underlier:reference-loop" + sfx,
+                     detail={"max_abs_diff": max(float((a - b).abs().max()) for a, b in zip(p1, p2)) if len(p1) == len(p2) else None})
+        if optkind == "instance" and len(opt.grads_at_step) == len(ref_grads):
+            for ep, (ga, gb) in enumerate(zip(opt.grads_at_step, ref_grads)):
+                if len(ga) != len(gb) or any((x is None) != (y is None) or (x is not None and not torch.equal(x, y)) for x, y in zip(ga, gb)):
+                    ctx.fail("the gradient applied at an optimiser step is not the gradient of the criterion over that epoch's batch simulated from the "
+                             "requested initial state (all underliers)", case | {"epoch": ep}, key="fit:multi-underlier:gradient-per-step" + sfx)
+                    break
+
+
+def itertools_cycle(xs):
+    import itertools
+    return itertools.cycle(xs)
 
 
 # ---------------------------------------------------------------------------------------------------------------------------
